@@ -1156,3 +1156,58 @@ def check_C15(ctx):
                             "spelling C: additionally every compact IRI uses one of three prefixes (incl. `_` and `-`) bound to the same namespace; all on the same graph")
     ctx.assumptions += ["yaml.v3 maps the style variants to the same node tree (kind, tag, value): dependency, observed only"]
     return conclude(ctx, broken, trusted=TRUST_COMMON)
+
+
+# ------------------------------------------------------------------ replay
+
+REPLAY_CMP = {"c01": cmp_c01, "c02": cmp_c02, "c03": cmp_c03, "c13": cmp_c13, "c14": cmp_c14, "c15": cmp_c15, "c16": cmp_c16, "c08": cmp_c08,
+              "c07": cmp_c07, "fuzz": cmp_fuzz, "hist": cmp_hist}
+
+
+def replay(ctx, path):
+    """re-run the case stored in a replay file against the CURRENT /repo and say whether it still fails"""
+    rec = json.load(open(path))
+    case = rec.get("case")
+    if not isinstance(case, dict) or "op" not in case:
+        log("replay file holds no single re-runnable case (obligation/correspondence break or aggregated run); re-run the check instead:")
+        log(f"  bin/check {ctx.pid}")
+        print(f"VIOLATION property={ctx.pid} replay={path} no-failing-input-found")
+        return 1
+    build_harness()
+    if ctx.pid in ("C04", "C09", "C11", "C17", "C08", "C06", "C10", "C18", "C07", "C15", "C16"):
+        try:
+            run_extract()
+        except Broken:
+            pass
+    lake_build(["acvdriver"])
+    line = json.dumps(case)
+    i = run_impl([line], jobs=1)[0]
+    op = case["op"]
+    if op == "pipe":
+        m = run_model([line], jobs=1)[0]
+        problems = pipe_property_checks(ctx.pid, case, i)
+        r = cmp_pipe(case, i, m)
+        if problems:
+            print(f"VIOLATION property={ctx.pid} replay={path}")
+            log("  still fails: " + problems[0][1])
+            return 1
+        if r:
+            print(f"VIOLATION property={ctx.pid} replay={path} no-failing-input-found")
+            log("  correspondence still differs: " + r[1])
+            return 1
+        log("  the case passes now")
+        return 0
+    cmpf = REPLAY_CMP.get(op)
+    if cmpf is None:
+        log(f"no single-case replay for op {op}; re-run bin/check {ctx.pid}")
+        return 2
+    m = run_model([line], jobs=1)[0] if op not in ("fuzz", "hist", "c07") else None
+    r = cmpf(case, i, m)
+    if r and r is not True:
+        sig, desc = r
+        tail = " no-failing-input-found" if sig.startswith("~") else ""
+        print(f"VIOLATION property={ctx.pid} replay={path}{tail}")
+        log("  still fails: " + desc)
+        return 1
+    log("  the case passes now")
+    return 0
